@@ -6,6 +6,7 @@ EDITS = ["none", "deldir", "flip", "truncate", "append", "addfile", "adddir", "d
          "swap_d2f", "below_norec", "uncopy", "rmobj", "rmart", "checkout_other", "lookalike", "movecache", "rmman", "emptied_rmman",
          "uncommitted", "same_size_old_mtime", "same_size_old_mtime", "rmobj_of_copy", "rmobj_of_copy", "dir_to_outside_link", "dir_to_outside_link",
          "emptied_damaged_man", "emptied_damaged_man", "commit_through_dirlink", "commit_through_dirlink"]
+NFC, NFD = "caf\u00e9".encode(), "cafe\u0301".encode()
 
 
 def make_cases(rng, tier, n):
@@ -48,12 +49,29 @@ def make_cases(rng, tier, n):
                         c["init"].append(("file", d0[0][0] + b"/" + nm + b"/inner.txt", "g:%d:%d" % (rng.randrange(1000), rng.choice([0, 7, 300]))))
                         c["init"].append(("file", d0[0][0] + b"/" + nm + b".IsDir.txt", "g:%d:4" % rng.randrange(1000)))
                 stats["schema_field_names"] = stats.get("schema_field_names", 0) + 1
+        forced = None
+        d1_ = [a for a in s1eval.artifacts(c) if a[1] == "d"]
+        if i % 14 == 11 and d1_:
+            # a tracked name in composed form; later a sibling appears whose name is the same text in DECOMPOSED form (another name)
+            c["init"] += [("file", d1_[0][0] + b"/" + NFC + b".txt", "g:%d:9" % rng.randrange(1000)), ("dir", d1_[0][0] + b"/" + NFD + b"_dir"),
+                          ("file", d1_[0][0] + b"/" + NFD + b"_dir/in.txt", "g:%d:4" % rng.randrange(1000))]
+            forced = "nfd_twin"
+        if i % 14 == 13 and d1_:
+            # many regular COPIES in one directory (more than the workers), one long file modified near its end, the others short
+            for j in range(90):
+                c["init"].append(("file", d1_[0][0] + b"/cp%03d.dat" % j, "g:%d:%d" % (40000 + j, 5 + j % 40)))
+            c["init"].append(("file", d1_[0][0] + b"/cp_long.dat", "g:77:200000"))
+            forced = "long_copy_modified"
         strat = rng.choice("lc")
         arts = s1eval.artifacts(c)
         files = [e for e in c["init"] if e[0] == "file"]
         dirs_in = [e for e in c["init"] if e[0] == "dir" and any(e[1].startswith(p + b"/") for p, fl, sp in arts if "d" in fl)]
         dart = [a for a in arts if "d" in a[1]]
         edit = rng.choice(EDITS)
+        if forced:
+            edit = forced
+            if forced == "long_copy_modified":
+                strat = "c"
         ops = [("commit", strat, []), ("status", [])]
         e = None
         def size_of(spec):
@@ -126,6 +144,15 @@ def make_cases(rng, tier, n):
                 ops.append(("dirlink", tgt))
             else:
                 edit = "none"
+        elif edit == "nfd_twin":
+            tw = rng.choice(["file", "dir", "both"])
+            if tw in ("file", "both"):
+                ops.append(("write", d1_[0][0] + b"/" + NFD + b".txt", "g:%d:9" % rng.randrange(2000, 3000)))
+            if tw in ("dir", "both"):
+                ops += [("mkdir", d1_[0][0] + b"/" + NFC + b"_dir"), ("write", d1_[0][0] + b"/" + NFC + b"_dir/in.txt", "g:5:4")]
+        elif edit == "long_copy_modified":
+            # the last bytes of the long file change (same length): that file is stale, every short one stays up to date
+            ops.append(("write", d1_[0][0] + b"/cp_long.dat", "t:77:200000:10"))
         elif edit == "commit_through_dirlink" and dart:
             # a committed directory artifact is replaced by a symbolic link to a directory elsewhere holding the same names and bytes
             # (or other data), and `dud commit` is run again: whatever commit answers, a commit that SUCCEEDS leaves every artifact
